@@ -102,7 +102,7 @@ def run_session(ctx, fzf, sid, cfg, items, steps, width, height):
             # let the last search / render settle so that its transitions are part of the trace
             s.wait_trace_quiet(quiet=0.08)
             status_before = s.get()
-            s.post("abort")
+            s.post("abort", final=True)
             s.wait_exit()
         tr = s.trace()
         return tr
